@@ -1,3 +1,4 @@
-import Holpy.Common.Sexp
-/- stub: replaced when the C14 model is built -/
-def main : IO Unit := Holpy.lineLoop (fun _ => "bad-op")
+import Holpy.C13.Wire
+import Holpy.C14.Model
+/- Driver of the C14 model (the splice of `apply_tactic` is the C13 model's): same line protocol. -/
+def main : IO Unit := Holpy.lineLoop Holpy.C13.Wire.handle
